@@ -223,3 +223,26 @@ def _replay(c, o, spec_funcs, instantiate):
     want = o["id"].split("[")[0] if "[" in o["id"].split(":")[0] else o["id"]
     base = "%s:%s:%s" % (c.qualname, o["kind"], o["clause"])
     return (base in ids), desc
+
+
+def generic_instantiate(converters=None):
+    """instantiate(contract, model, case) for plain functions: positional args by parameter name."""
+    import inspect
+    converters = converters or {}
+
+    def inst(contract, model, case=None):
+        if "self._source" in model:
+            from .frontend import lexer_instantiate
+            return lexer_instantiate(contract, model, case)
+        mod, owner, func = V.resolve_target(contract.target)
+        args = []
+        for p in inspect.signature(func).parameters.values():
+            if p.name not in model:
+                if p.default is not p.empty:
+                    continue
+                return None
+            v = model[p.name]
+            conv = converters.get(p.name) or converters.get("*")
+            args.append(conv(v) if conv else v)
+        return args, {}
+    return inst
